@@ -1,16 +1,22 @@
-//! `simgc "<ops>|<gc points>"`: run one C09 scenario (also under Miri). Exit 1 on violation.
+//! `simgc "<ops>|<gc points>" ["<ops>|<gc points>" ...]`: run C09 scenarios (also under Miri).
+//! Exit 1 on violation.
 fn main() {
-    let arg = std::env::args().nth(1).unwrap_or_default();
-    let (ops, gcs) = simgc::parse(&arg);
-    let out = simgc::run(&ops, &gcs);
-    println!(
-        "ops={} skipped={} collections={} injected={} nodes={} freed={} resurrections={} tainted={}",
-        out.ops_executed, out.ops_skipped, out.collections, out.injected_fired, out.nodes, out.freed, out.resurrections, out.tainted
-    );
-    for (c, d) in &out.violations {
-        println!("VIOLATION-CLASS {c}: {d}");
+    let mut bad = 0;
+    let mut n = 0;
+    for arg in std::env::args().skip(1) {
+        n += 1;
+        let (ops, gcs) = simgc::parse(&arg);
+        let out = simgc::run(&ops, &gcs);
+        println!(
+            "#{n} ops={} skipped={} collections={} injected={} in_borrow={} nodes={} freed={} resurrections={} tainted={}",
+            out.ops_executed, out.ops_skipped, out.collections, out.injected_fired, out.in_borrow_collections, out.nodes, out.freed, out.resurrections, out.tainted
+        );
+        for (c, d) in &out.violations {
+            println!("VIOLATION-CLASS {c}: {d} [history {arg}]");
+            bad += 1;
+        }
     }
-    if !out.violations.is_empty() {
+    if bad > 0 {
         std::process::exit(1);
     }
 }
